@@ -1,6 +1,15 @@
 """Seeded generation of tables and op histories for table-sim (pure: no xdeps, no hashing)."""
 from .model import MTable, Reject, expr_text, eval_expr
 
+# alphabets whose names are case variants of each other or contain regex metacharacters: a string selector is a
+# case-insensitive full-match regular expression, so 'a' also selects 'A' and 'q.1' also selects 'qx1'.  With
+# '::count' the code resolves a literal hit first and the documentation does not say which reading wins, so
+# no '::count' regex selector is generated over these.
+MIXED_ALPHABETS = [
+    ["a", "A", "b", "ab"],
+    ["q.1", "qx1", "q11", "q"],
+    ["mq", "MQ", "Mq", "d"],
+]
 ALPHABETS = [
     ["a", "b", "ab"],
     ["ip", "mq", "mqx", "d"],
@@ -41,13 +50,23 @@ def gen_table(rng, cfg, alpha, with_scalars=True):
         scal.append(("energy", 6.5))
         if rng.random() < 0.5:
             scal.append(("label", "seq1"))
-    return {"cols": cols, "index": "name", "scalars": scal}
+        if rng.random() < 0.5:
+            # non-column entries need not be numbers or strings
+            extra = rng.choice([("tuple", [1, 2]), ("none",), ("list", [1.5, 2.5]), ("array", [float(i) for i in range(n + 3)]), ("dict", 1)])
+            scal.append(("meta", extra))
+    out = {"cols": cols, "index": "name", "scalars": scal}
+    if cfg.get("fixed_width") and n > 0:
+        # the index column keeps a fixed-width numpy string dtype (Table(..., cast_strings=False))
+        out["cols"] = [(c[0], "u" if c[0] == "name" else c[1], c[2]) for c in cols]
+        out["fixed_width"] = True
+    return out
 
 
 class TGen:
     def __init__(self, rng, cfg, tables):
         self.rng, self.cfg = rng, cfg
         self.alpha = cfg["alphabet"]
+        self.mixed = cfg["alphabet"] in MIXED_ALPHABETS
         self.models = [MTable([c[0] for c in t["cols"]], {c[0]: c[2] for c in t["cols"]}, t["index"], dict(t["scalars"])) for t in tables]
         self.kinds = [{c[0]: c[1] for c in t["cols"]} for t in tables]
         self.newcol = 0
@@ -108,7 +127,7 @@ class TGen:
         if k < 0.3:
             p = self.pattern()
             r = rng.random()
-            if r < 0.45:
+            if r < 0.45 and not self.mixed:
                 p += "::%d" % rng.choice([0, 1, -1, 2, -2])
             r = rng.random()
             if r < 0.15:
@@ -198,6 +217,29 @@ class TGen:
                 val = rng.choice(self.alpha)
             fk = rng.choice([0, 0, 1]) if (self.cfg.get("faults") and rng.random() < 0.25) else None
             return ("setcell", tid, col, self.row_form(m), val, fk)
+        if kind == "setslice":
+            col = m.index if rng.random() < 0.7 else rng.choice(m.cols)
+            k = kd[col]
+            r = rng.random()
+            if r < 0.4 and n:
+                a, b = sorted([rng.randrange(n + 1), rng.randrange(n + 1)])
+                sel = ("slice", a if rng.random() < 0.8 else None, b if rng.random() < 0.8 else None, None)
+            elif r < 0.7 and n:
+                sel = ("list", tuple(rng.sample(range(n), rng.randint(1, min(3, n)))))
+            else:
+                a = self.row_form(m)
+                b = self.row_form(m)
+                sel = ("slice", a if isinstance(a, str) else None, b if isinstance(b, str) else None, None)
+            try:
+                from .world import model_sel
+                cnt = len(m.select1(model_sel(sel)))
+            except Exception:
+                return None
+            vals = tuple((rng.choice(self.alpha) if col == m.index else (rng.choice(FLOATS) if k == "f" else rng.randint(-3, 6) if k == "i" else rng.choice(["u", "v", "w"]))) for _ in range(cnt))
+            return ("setslice", tid, col, sel, vals)
+        if kind == "ctor":
+            spec = gen_table(rng, {"sizes": [0, 1, 2, 3, 4], "index_first": True}, self.alpha)
+            return ("ctor", spec, rng.choice(["ok", "ok", "index_not_listed", "index_not_listed", "index_is_scalar", "index_absent", "ragged", "not_array"]))
         if kind == "setcol":
             r = rng.random()
             if r < 0.5:
@@ -266,6 +308,13 @@ class TGen:
                 idx = m.resolve(np_row(row))
                 if 0 <= idx < m.n():
                     m.data[col][idx] = value
+            elif kind == "setslice":
+                _, tid, col, sel, vals = op
+                m = M[tid]
+                idx = m.select1(model_sel(sel))
+                if len(idx) == len(vals) and len(set(idx)) == len(idx):
+                    for i, v in zip(idx, vals):
+                        m.data[col][i] = v
             elif kind == "setcol":
                 _, tid, col, k, vals, style, fk = op
                 m = M[tid]
